@@ -94,6 +94,11 @@ type FuncCtx struct {
 	coverFail      []string
 	poison         *poisonState
 	deferred       []*ast.DeferStmt
+	curNode        ast.Node
+	defs           map[string]string
+	defers         []*ast.DeferStmt
+	goDepth        int
+	famOverride    []famInst
 }
 
 func (fx *FuncCtx) unsupportedf(format string, a ...interface{}) {
@@ -150,6 +155,12 @@ func (fx *FuncCtx) define(base string, t Term) Term {
 	}
 	name := fx.freshName(base)
 	fx.decls = append(fx.decls, fmt.Sprintf("(define-fun %s () %s %s)", name, t.Sort, t.S))
+	if t.Sort == SInt {
+		if fx.defs == nil {
+			fx.defs = map[string]string{}
+		}
+		fx.defs[name] = t.S
+	}
 	return Term{name, t.Sort}
 }
 
@@ -261,6 +272,9 @@ func (fx *FuncCtx) oblige(st *State, kind string, goal Term, node ast.Node, what
 	}
 	if what == "" {
 		what = fx.src(node)
+	}
+	if fx.goDepth > 0 && (kind == "frame" || kind == "call.frame") {
+		kind = "go." + kind
 	}
 	base := fmt.Sprintf("%s/%s#%d[%s]", fx.short, kind, fx.ordinal(node), what)
 	if fx.inlineDepth > 0 {
